@@ -765,6 +765,8 @@ def families(tier):
                    ('none-and-in', (None, 0.5, 0.25, 0.75)), ('ends', (0.0, 1.0, 1.0, 0.0))):
         fams.append(('arc-arc-circles-%s' % nm, 'vf.props.c11arcarc', 'fam_arc_arc_circles', {'tvals': tv}))
     for sg in (1, -1):
+        fams.append(('arc-arc-circles-complete%s' % ('+' if sg > 0 else '-'), 'vf.props.c11arcarc', 'fam_arc_arc_circles', {'mode': 'complete', 'sign': sg}))
+    for sg in (1, -1):
         fams.append(('arc-phase2t-%s' % ('ccw' if sg > 0 else 'cw'), 'vf.props.c11arc', 'fam_phase2t', {'sign': sg}))
     for nm, rad in (('2x1', (2.0, 1.0)), ('circle', (2.0, 2.0))) + ((('1x3', (1.0, 3.0)),) if tier == 'thorough' else ()):
         for sg in (1, -1):
